@@ -192,6 +192,93 @@ func (c *Canonicalizer) NormalizeInductionVariables() {
 		return
 	}
 	c.normalizeInductionVariablesRecursive(c.loopInfo.Loops, 0)
+	c.boundSubstitutionSize()
+}
+
+// boundSubstitutionSize keeps the text a substituted value expands to within loop.MaxSCEVNodes
+// nodes. A closed form mentions the values of its start and step; when such a value is itself a
+// substituted induction variable the renamer expands it in place, so a nest in which every loop
+// starts at `i + i` of the enclosing loop's variable doubled the text per level: about twenty
+// loops, a few hundred bytes of source, produced hundreds of megabytes of canonical IR. A variable
+// whose expansion would exceed the bound is not substituted: its phi is printed like any other
+// instruction, which loses nothing.
+func (c *Canonicalizer) boundSubstitutionSize() {
+	const sat = 1 << 30
+	add := func(a, b int) int {
+		if a+b > sat {
+			return sat
+		}
+		return a + b
+	}
+	size := make(map[ssa.Value]int)
+	visiting := make(map[ssa.Value]bool)
+
+	var valueSize func(v ssa.Value) int
+	var scevSize func(s loop.SCEV) int
+	scevSize = func(s loop.SCEV) int {
+		switch x := s.(type) {
+		case *loop.SCEVAddRec:
+			return add(1, add(scevSize(x.Start), scevSize(x.Step)))
+		case *loop.SCEVGenericExpr:
+			return add(1, add(scevSize(x.X), scevSize(x.Y)))
+		case *loop.SCEVMax:
+			return add(1, add(scevSize(x.X), scevSize(x.Y)))
+		case *loop.SCEVUnknown:
+			if x.Value != nil {
+				return valueSize(x.Value)
+			}
+		}
+		return 1
+	}
+	valueSize = func(v ssa.Value) int {
+		sub, ok := c.virtualSubstitutions[v]
+		if !ok {
+			return 1
+		}
+		if n, done := size[v]; done {
+			return n
+		}
+		if visiting[v] {
+			return 1 // the renamer prints <cycle> here
+		}
+		visiting[v] = true
+		n := 1
+		if s, isScev := sub.(loop.SCEV); isScev {
+			n = scevSize(s)
+		} else {
+			n = valueSize(sub)
+		}
+		visiting[v] = false
+		if n > loop.MaxSCEVNodes {
+			delete(c.virtualSubstitutions, v)
+			if instr, isInstr := v.(ssa.Instruction); isInstr {
+				delete(c.VirtualizedInstrs, instr)
+			}
+			n = 1
+		}
+		size[v] = n
+		return n
+	}
+
+	// header phis in block order, loops in the order of the loop forest: the outcome does not
+	// depend on map iteration
+	var walk func(loops []*loop.Loop, depth int)
+	walk = func(loops []*loop.Loop, depth int) {
+		if depth >= MaxLoopAnalysisDepth {
+			return
+		}
+		for _, l := range loops {
+			if l.Header != nil {
+				for _, instr := range l.Header.Instrs {
+					if phi, ok := instr.(*ssa.Phi); ok {
+						valueSize(phi)
+					}
+				}
+			}
+			walk(l.Children, depth+1)
+		}
+	}
+	walk(c.loopInfo.Loops, 0)
 }
 
 func (c *Canonicalizer) normalizeInductionVariablesRecursive(loops []*loop.Loop, depth int) {
